@@ -4,9 +4,12 @@ import (
 	"fmt"
 	"go/types"
 	"strings"
+	"sync"
 
 	"golang.org/x/tools/go/ssa"
 )
+
+var closureArgOnce sync.Once
 
 type FuncResult struct {
 	Func     string
@@ -24,6 +27,11 @@ func (w *World) verifyFunction(fn *ssa.Function, ct *Contract, tag string, safeA
 	for _, l := range w.db.LitOrder {
 		vc.strLit(l)
 	}
+	// ghost state is registered up front, so that a havoc which keeps ghost state
+	// also keeps the components no instruction has mentioned yet
+	for _, name := range w.db.GhostOrd {
+		vc.keyGhost(w.db.Ghosts[name])
+	}
 	e := &encoder{prog: w.prog, vc: vc, db: w.db, tag: tag, root: fn, modPath: w.modPath, obSeq: map[string]int{}, safeAll: safeAll, assertHit: map[int]bool{}}
 	e.consts = &constInfo{e: e, repoFns: w.repoFns, status: map[*ssa.Global]*globalConst{}}
 	e.ms = &modsetCache{e: e, memo: map[*ssa.Function]*modSet{}, active: map[*ssa.Function]bool{}}
@@ -36,6 +44,36 @@ func (w *World) verifyFunction(fn *ssa.Function, ct *Contract, tag string, safeA
 			}
 		}
 	}()
+	closureArgOnce.Do(func() {
+		closureArgOK = func(c *ssa.CallCommon, idx int) bool {
+			f := c.StaticCallee()
+			if f == nil {
+				return false
+			}
+			k := f.String()
+			if f.Origin() != nil {
+				if _, ok := w.db.ByKey[k]; !ok {
+					k = f.Origin().String()
+				}
+			}
+			cct := w.db.ByKey[k]
+			if cct == nil {
+				return false
+			}
+			names := cct.Params
+			if len(names) == 0 {
+				for _, p := range f.Params {
+					names = append(names, p.Name())
+				}
+			}
+			for _, inv := range cct.Invokes {
+				if idx < len(names) && names[idx] == inv.Param {
+					return true
+				}
+			}
+			return false
+		}
+	})
 	fr := e.newFrame(fn, nil)
 	fr.contract = ct
 	if err := fr.analyse(); err != nil {
@@ -166,6 +204,7 @@ func (w *World) verifyFunction(fn *ssa.Function, ct *Contract, tag string, safeA
 	for _, r := range fr.rets {
 		res.Covers = append(res.Covers, &Obligation{Name: fmt.Sprintf("%s#vacuity@return%d", shortFn(fn), r.idx), Kind: "vacuity", Guard: r.cond, Goal: "false", NFacts: len(vc.facts), Expect: "sat", Func: shortFn(fn), Desc: "return reachable under the assumptions"})
 	}
+	res.Covers = append(res.Covers, e.callCovers...)
 	seenGuard := map[string]bool{}
 	for _, ob := range vc.obls {
 		if ob.Kind == "safe" || ob.Sub == "auto" || strings.Contains(ob.Name, "@inl:") {
